@@ -6,9 +6,32 @@ import time
 import traceback
 
 
+def _guarded(pid, fn):
+    """run a driver; an exception escaping from the real code (not from the driver) is a failed case:
+    the function under contract raised on an input of its domain"""
+    from rtc import report
+    try:
+        return fn()
+    except Exception as e:
+        frames = traceback.extract_tb(e.__traceback__)
+        where = [f for f in frames if '/discopy/' in f.filename]
+        if not where or not report.CURRENT:
+            raise
+        rep = report.CURRENT[-1]
+        drv = [f for f in frames if '/rtc/drivers/' in f.filename]
+        rep.fail('%s:no_exception' % pid, 'the real code raised %s: %s at %s:%d in %s (driver line %d); the rest of this '
+                 'shard was not explored' % (type(e).__name__, str(e)[:200], where[-1].filename, where[-1].lineno,
+                                             where[-1].name, drv[-1].lineno if drv else 0), 'driver %s' % pid)
+        if rep.evaluations == 0:
+            rep.evaluations = 1
+        res = rep.result()
+        res['aborted'] = True
+        return res
+
+
 def _shard(pid, tier, seed, k, n):
     mod = importlib.import_module('rtc.drivers.' + pid)
-    return mod.run(tier, seed, shard=(k, n))
+    return _guarded(pid, lambda: mod.run(tier, seed, shard=(k, n)))
 
 
 def merge(parts):
@@ -45,7 +68,7 @@ def main():
                 parts = pool.starmap(_shard, [(pid, tier, seed, k, n) for k in range(n)])
             res = merge(parts)
         else:
-            res = mod.run(tier, seed)
+            res = _guarded(pid, lambda: mod.run(tier, seed))
         res['status'] = 'ok'
     except Exception as e:
         res = {'status': 'error', 'error': repr(e), 'traceback': traceback.format_exc()}
